@@ -12,6 +12,11 @@ RUN     each history is replayed into three real objects -- OrderedRingBuffer ov
 VAL     RingBufferTrace re-executes the updates and evaluates every C09 clause on the recorded
         answers.  Python only drives, converts floats to small integer codes, removes duplicate
         answers of the three objects, and counts.
+
+The transcription in RingBuffer.tla is the repaired design (repo commits 4b946d2, 67229ac).  No
+deviation is tolerated; a wrong answer that is exactly what the design before those commits would
+have returned carries the name of the old defect (Dev_*) in `deviations` and in the detail.
+"note.*" verdict lines are not property clauses and go to evidence `disagreements`.
 """
 
 from __future__ import annotations
@@ -37,7 +42,7 @@ INITV = 5.0
 MC_INV = [
     "Refinement", "GapsSortedDisjoint", "GapsExact", "GapsCanonical", "CountValid", "CountCovered",
     "OldestNewest", "RejectsOld", "WindowIndexOK", "WindowDatetimeOK", "SpanOK", "PointOK",
-    "FixedWindowOK", "FixedPointOK",
+    "OldWindowExplained", "OldPointExplained",
 ]
 
 
@@ -343,7 +348,7 @@ def _stage(rep: Report, prop: str, name: str, consts: dict, mode: str, limit, si
         cl = v["clause"]
         if cl.startswith("note."):
             dis = rep.extra.setdefault("disagreements", {})
-            e = dis.setdefault(cl, dict(records=0, items=0, example=None))
+            e = dis.setdefault(cl, dict(records=0, items=0, example=None, what=NOTES.get(cl, "")))
             e["records"] += 1
             e["items"] += v.get("n", 1)
             if e["example"] is None:
@@ -352,14 +357,24 @@ def _stage(rep: Report, prop: str, name: str, consts: dict, mode: str, limit, si
         if not cl.startswith(prop + "."):
             continue
         cs = byid.get(v["tid"], {})
+        devs = sorted(v.get("dev", []))
         rep.fail(
             cl,
             dict(stage=name, constants=consts, updates=[s[:2] for s in cs.get("steps", [])], step=v["l"], items=v.get("n", 1)),
-            v["detail"],
-            deviations=sorted(v.get("dev", [])),
+            list(v["detail"]) + (["old defect returned", devs] if devs else []),
+            deviations=devs,
         )
 
 
+NOTES = {
+    "note.Transcription": "the object answered correctly but not as the transcription in RingBuffer.tla does (spec drift)",
+    "note.PointRange": "MovingWindow.at(int) read NaN for a key outside the covered range (a window slot before the oldest "
+    "valid one) where its docstring promises IndexError; C09 does not demand the exception: it constrains the values "
+    "queries return (stored value or 'no valid value', never evicted / unwritten data), and NaN is true of that slot",
+}
+
+# Counted by TLC on the MODEL's state and the query arguments only (never on what the code returned), so
+# they do not depend on any defect manifesting.
 GUARDS = {
     # statistic -> what it shows was exercised
     "obs": "observations",
@@ -373,10 +388,10 @@ GUARDS = {
     "dtWithFill": "C09.WindowDatetime: queries covering a slot without valid value",
     "idxNonEmpty": "C09.WindowIndex: queries covering at least one slot",
     "ptInRange": "C09.PointQueryNoStale: integer keys inside the covered range",
-    "devSameSlot": "Dev_SameSlotFullBuffer fired",
-    "devFill": "Dev_FillFromRawStart fired",
-    "devPtGap": "Dev_PointIgnoresGaps fired",
-    "devPtPast": "Dev_PointOnePastNewest fired",
+    "devSameSlot": "queries in the regime of the old defect Dev_SameSlotFullBuffer (clamped bounds round to one position)",
+    "devFill": "queries in the regime of the old defect Dev_FillFromRawStart (off-grid start rounding down, gap in range)",
+    "devPtGap": "point keys in the regime of Dev_PointIgnoresGaps (gap slot whose container position holds a value)",
+    "devPtPast": "point keys in the regime of Dev_PointOnePastNewest (index == count_covered)",
 }
 
 
